@@ -1,1 +1,597 @@
-(* placeholder: additions engine (C30), under construction *)
+(* C30: theorems about the additions model (Model/Additions.v) and its checker (Check/CheckAdds.v).
+   A. InitExpr::to_wasmencoder_type read back: bit-exact, injective, decodes to the request (all forms).
+   B. add_data / exports / add_global / add_local_memory only append: closed forms over whole histories.
+   C. mod_global_init_expr changes exactly one initialiser.
+   D. emission: every data segment / export / global / memory of the output is the stored request.
+   E. reflection of [agree]. *)
+From Coq Require Import List Arith NArith ZArith Bool Lia.
+Import ListNotations.
+From Orca Require Import Util Wrap Reindex CheckReidx Additions CheckAdds.
+Local Open Scope N_scope.
+
+(* ------------------------------------------------------------------------------------------ *)
+(* A. constant expressions *)
+Definition wf_value (v : value) : bool :=
+  match v with
+  | VI32 z => in_i32 z | VI64 z => in_i64 z | VF32 b => in_u32 b | VF64 b => in_u64 b | VV128 u => in_u128 u
+  end.
+Definition wf_instr (i : iinstr) : bool := match i with IVal v => wf_value v | _ => true end.
+
+(* how a decoder turns the operator back into a request: the 128 bits of a v128 constant are the unsigned
+   reading of the i128 wasmparser hands out *)
+Definition dec_cop (c : cop) : option iinstr :=
+  match c with
+  | CI32 z => Some (IVal (VI32 z)) | CI64 z => Some (IVal (VI64 z))
+  | CF32 b => Some (IVal (VF32 b)) | CF64 b => Some (IVal (VF64 b))
+  | CV128 z => Some (IVal (VV128 (to_u128 z)))
+  | CGlobalGet q => Some (IGlobal q) | CRefFunc q => Some (IRefFunc q) | CRefNull ht => Some (IRefNull ht)
+  | COther _ => None
+  end.
+
+Theorem enc_instr_decodes (i : iinstr) : wf_instr i = true -> dec_cop (enc_instr i) = Some i.
+Proof.
+  destruct i as [[z|z|b|b|u]|g|f|ht]; cbn [wf_instr wf_value enc_instr enc_value dec_cop]; intros H; try reflexivity.
+  apply in_u128_iff in H. rewrite to_u128_wrap_s128 by exact H. reflexivity.
+Qed.
+
+Theorem enc_instr_injective (i j : iinstr) :
+  wf_instr i = true -> wf_instr j = true -> enc_instr i = enc_instr j -> i = j.
+Proof.
+  intros Hi Hj E. apply enc_instr_decodes in Hi. apply enc_instr_decodes in Hj.
+  rewrite E in Hi. rewrite Hi in Hj. inversion Hj. reflexivity.
+Qed.
+
+Theorem enc_init_injective : forall e e' : init,
+  forallb wf_instr e = true -> forallb wf_instr e' = true -> enc_init e = enc_init e' -> e = e'.
+Proof.
+  induction e as [|i e IH]; intros [|j e'] H H' E; cbn in *; try discriminate; [reflexivity|].
+  apply andb_true_iff in H as [Hi He]. apply andb_true_iff in H' as [Hj He'].
+  inversion E. f_equal; [apply enc_instr_injective; assumption | apply IH; assumption].
+Qed.
+
+(* the v128 constant: the emitted immediate is the two's-complement reading of the requested 128 bits and
+   lies in the i128 range; its 128 bits are the requested ones *)
+Theorem v128_bits_exact (u : Z) : in_u128 u = true ->
+  enc_value (VV128 u) = CV128 (as_i128 u) /\ in_i128 (as_i128 u) = true /\ to_u128 (as_i128 u) = u.
+Proof.
+  intros H. apply in_u128_iff in H. cbn [enc_value]. rewrite wrap_s128_u128 by exact H.
+  split; [reflexivity|]. split; [apply in_i128_iff, as_i128_range; exact H | apply to_u128_as_i128; exact H].
+Qed.
+
+(* against the specification of the checker: the resolved form of the emitted operator is the resolved form
+   of the request, for every value (NaN payloads, signed zeros and infinities are just bit patterns) *)
+Theorem enc_value_meets_spec (o : aobs) (h : sstate) (v : value) :
+  wf_value v = true -> obs_rop o (enc_value v) = exp_rop h (IVal v).
+Proof.
+  destruct v as [z|z|b|b|u]; cbn [wf_value enc_value obs_rop exp_rop]; intros H; try reflexivity.
+  apply in_u128_iff in H. rewrite to_u128_wrap_s128 by exact H. reflexivity.
+Qed.
+Theorem enc_null_meets_spec (o : aobs) (h : sstate) (ht : N) : obs_rop o (enc_instr (IRefNull ht)) = exp_rop h (IRefNull ht).
+Proof. reflexivity. Qed.
+
+(* fix_id_mapping touches only the two index-carrying forms *)
+Lemma fix_instr_val mf mg v : fix_instr mf mg (IVal v) = Ok (IVal v).
+Proof. reflexivity. Qed.
+Lemma fix_instr_null mf mg ht : fix_instr mf mg (IRefNull ht) = Ok (IRefNull ht).
+Proof. reflexivity. Qed.
+Definition index_free (i : iinstr) : bool := match i with IVal _ | IRefNull _ => true | _ => false end.
+Lemma fix_init_index_free mf mg : forall e, forallb index_free e = true -> fix_init mf mg e = Ok e.
+Proof.
+  induction e as [|i e IH]; cbn [forallb fix_init]; intros H; [reflexivity|].
+  apply andb_true_iff in H as [Hi He]. destruct i; try discriminate; cbn [fix_instr]; rewrite (IH He); reflexivity.
+Qed.
+Lemma fix_init_length mf mg : forall e e', fix_init mf mg e = Ok e' -> length e' = length e.
+Proof.
+  induction e as [|i e IH]; cbn [fix_init]; intros e' H; [inversion H; reflexivity|].
+  destruct (fix_instr mf mg i); [|discriminate]. destruct (fix_init mf mg e) eqn:E; [|discriminate].
+  inversion H. cbn. f_equal. apply IH. reflexivity.
+Qed.
+
+(* ------------------------------------------------------------------------------------------ *)
+(* helpers on rmap *)
+Lemma rmap_length {A B} (f : A -> res B) : forall l r, rmap f l = Ok r -> length r = length l.
+Proof.
+  induction l as [|x l IH]; cbn [rmap]; intros r H; [inversion H; reflexivity|].
+  destruct (f x); [|discriminate]. destruct (rmap f l); [|discriminate]. inversion H. cbn. f_equal. apply IH. reflexivity.
+Qed.
+Lemma rmap_nth {A B} (f : A -> res B) : forall l r k x, rmap f l = Ok r -> nth_error l k = Some x ->
+  exists y, nth_error r k = Some y /\ f x = Ok y.
+Proof.
+  induction l as [|a l IH]; intros r k x H Hn; [destruct k; discriminate|].
+  cbn [rmap] in H. destruct (f a) eqn:Ea; [|discriminate]. destruct (rmap f l) eqn:El; [|discriminate]. inversion H; subst r.
+  destruct k as [|k]; cbn in Hn |- *.
+  - inversion Hn; subst. eexists. split; [reflexivity|exact Ea].
+  - eapply IH; [reflexivity|exact Hn].
+Qed.
+Lemma rmap_nth_inv {A B} (f : A -> res B) : forall l r k y, rmap f l = Ok r -> nth_error r k = Some y ->
+  exists x, nth_error l k = Some x /\ f x = Ok y.
+Proof.
+  induction l as [|a l IH]; intros r k y H Hn; cbn [rmap] in H.
+  - inversion H; subst. destruct k; discriminate.
+  - destruct (f a) eqn:Ea; [|discriminate]. destruct (rmap f l) eqn:El; [|discriminate]. inversion H; subst r.
+    destruct k as [|k]; cbn in Hn |- *.
+    + inversion Hn; subst. eexists. split; [reflexivity|exact Ea].
+    + eapply IH; [reflexivity|exact Hn].
+Qed.
+Lemma rmap_ext_in {A B} (f g : A -> res B) : forall l, (forall x, In x l -> f x = g x) -> rmap f l = rmap g l.
+Proof.
+  induction l as [|a l IH]; intros H; [reflexivity|]. cbn [rmap].
+  rewrite (H a (or_introl eq_refl)). rewrite IH by (intros x Hx; apply H; right; exact Hx). reflexivity.
+Qed.
+Lemma rmap_map {A B C} (f : A -> res B) (g : B -> C) (h : A -> C) : forall l r,
+  (forall x y, f x = Ok y -> g y = h x) -> rmap f l = Ok r -> map g r = map h l.
+Proof.
+  induction l as [|a l IH]; intros r Hg H; cbn [rmap] in H; [inversion H; reflexivity|].
+  destruct (f a) eqn:Ea; [|discriminate]. destruct (rmap f l) eqn:El; [|discriminate]. inversion H; subst r.
+  cbn [map]. f_equal; [apply Hg; exact Ea | apply IH; [exact Hg|reflexivity]].
+Qed.
+
+(* ------------------------------------------------------------------------------------------ *)
+(* B. the additions only append *)
+Definition data_of (o : aop) : list dseg := match o with OAddData d => [d] | _ => [] end.
+Definition ex_core (e : expo) : N * N * N := (ex_name e, ex_kind e, ex_idx e).
+Definition exports_of (o : aop) : list (N * N * N) := match o with OAddExport k n id => [(n, k, id)] | _ => [] end.
+Definition gfps_of (o : aop) : list N :=
+  match o with OAddGlobal fp _ _ | OAddImpGlobal fp _ | OItAddGlobal fp _ _ => [fp] | _ => [] end.
+Definition mfps_of (o : aop) : list N := match o with OAddMem fp _ | OAddImpMem fp _ => [fp] | _ => [] end.
+Definition ffps_of (o : aop) : list N := match o with OAddImpFunc fp => [fp] | _ => [] end.
+Definition fps (s : astate) (x : sp) : list N := map it_fp (s_items (get_sp (a_m s) x)).
+Definition ids (s : astate) (x : sp) : list N := map it_id (s_items (get_sp (a_m s) x)).
+Definition new_fps (o : aop) (x : sp) : list N := match x with SF => ffps_of o | SG => gfps_of o | SM => mfps_of o end.
+
+Lemma map_upd_same {A B} (g : A -> B) (f : A -> A) : (forall a, g (f a) = g a) -> forall n l, map g (upd n f l) = map g l.
+Proof.
+  intros Hf. induction n as [|n IH]; intros [|a l]; cbn [upd map]; try reflexivity.
+  - rewrite Hf. reflexivity.
+  - rewrite IH. reflexivity.
+Qed.
+Lemma upd_length {A} (f : A -> A) : forall n l, length (upd n f l) = length l.
+Proof. induction n as [|n IH]; intros [|a l]; cbn [upd length]; try reflexivity. rewrite IH. reflexivity. Qed.
+
+(* delete_in keeps every item's fingerprint and id *)
+Lemma delete_in_keeps m x id m' : delete_in m x id = Ok m' ->
+  forall y, map it_fp (s_items (get_sp m' y)) = map it_fp (s_items (get_sp m y))
+         /\ map it_id (s_items (get_sp m' y)) = map it_id (s_items (get_sp m y)).
+Proof.
+  unfold delete_in. intros H y.
+  set (items' := if id <? lenN (s_items (get_sp m x)) then updN id (set_del true) (s_items (get_sp m x)) else s_items (get_sp m x)) in *.
+  assert (Hk : map it_fp items' = map it_fp (s_items (get_sp m x)) /\ map it_id items' = map it_id (s_items (get_sp m x))).
+  { unfold items'. destruct (id <? _); [|split; reflexivity]. unfold updN. split; apply map_upd_same; reflexivity. }
+  destruct (nthN items' id) as [it|]; [|discriminate].
+  destruct (it_imp it); inversion H; subst m'; clear H; destruct x, y; cbn; try (split; reflexivity); exact Hk.
+Qed.
+
+Lemma astep_appends s o s' r : astep s o = Ok (s', r) ->
+  a_data s' = a_data s ++ data_of o
+  /\ map ex_core (a_exports s') = map ex_core (a_exports s) ++ exports_of o
+  /\ (forall x, fps s' x = fps s x ++ new_fps o x)
+  /\ (forall x, length (ids s' x) = length (ids s x) + length (new_fps o x))%nat.
+Proof.
+  unfold fps, ids. destruct o; cbn [astep data_of exports_of new_fps gfps_of mfps_of ffps_of]; intros H.
+  - (* OAddGlobal *)
+    destruct (gty_conv t); [|discriminate]. cbn [step] in H. inversion H; subst; clear H. cbn.
+    rewrite !app_nil_r. repeat split; try reflexivity; intros []; cbn; rewrite ?app_nil_r, ?map_app, ?app_length, ?map_length; cbn; try reflexivity; lia.
+  - (* OAddImpGlobal *)
+    destruct (gty_conv t); [|discriminate]. cbn [step] in H. unfold push_import in H. cbn in H. inversion H; subst; clear H. cbn.
+    rewrite !app_nil_r. repeat split; try reflexivity; intros []; cbn; rewrite ?app_nil_r, ?map_app, ?app_length, ?map_length; cbn; try reflexivity; lia.
+  - (* OItAddGlobal *)
+    cbn [step] in H. inversion H; subst; clear H. cbn.
+    rewrite !app_nil_r. repeat split; try reflexivity; intros []; cbn; rewrite ?app_nil_r, ?map_app, ?app_length, ?map_length; cbn; try reflexivity; lia.
+  - (* OAddMem *)
+    cbn [step] in H. inversion H; subst; clear H. cbn.
+    rewrite !app_nil_r. repeat split; try reflexivity; intros []; cbn; rewrite ?app_nil_r, ?map_app, ?app_length, ?map_length; cbn; try reflexivity; lia.
+  - (* OAddImpMem *)
+    cbn [step] in H. unfold push_import in H. cbn in H.
+    destruct (N.eqb _ _); [|discriminate]. inversion H; subst; clear H. cbn.
+    rewrite !app_nil_r. repeat split; try reflexivity; intros []; cbn; rewrite ?app_nil_r, ?map_app, ?app_length, ?map_length; cbn; try reflexivity; lia.
+  - (* OAddImpFunc *)
+    cbn [step] in H. unfold push_import in H. cbn in H.
+    destruct (N.eqb _ _); [|discriminate]. inversion H; subst; clear H. cbn.
+    rewrite !app_nil_r. repeat split; try reflexivity; intros []; cbn; rewrite ?app_nil_r, ?map_app, ?app_length, ?map_length; cbn; try reflexivity; lia.
+  - (* OAddData *)
+    inversion H; subst; clear H. cbn. rewrite !app_nil_r. repeat split; try reflexivity; intros []; cbn; rewrite ?app_nil_r; try reflexivity; lia.
+  - (* OAddExport *)
+    inversion H; subst; clear H. cbn. rewrite map_app, !app_nil_r. repeat split; try reflexivity; intros []; cbn; rewrite ?app_nil_r; try reflexivity; lia.
+  - (* ODelExport *)
+    destruct (k <? lenN (a_exports s)); [|discriminate]. inversion H; subst; clear H. cbn. rewrite !app_nil_r.
+    repeat split; try reflexivity; try (intros []; cbn; rewrite ?app_nil_r; try reflexivity; lia).
+    unfold updN. apply map_upd_same. reflexivity.
+  - (* OModInit *)
+    destruct (nthN _ g) as [it|]; [|discriminate]. destruct (is_local it); [|discriminate].
+    destruct (plookup _ _); [|discriminate]. inversion H; subst; clear H. cbn. rewrite !app_nil_r.
+    repeat split; try reflexivity; intros []; cbn; rewrite ?app_nil_r; try reflexivity; lia.
+  - (* ODelete *)
+    cbn [step] in H. destruct (delete_in (a_m s) s0 id) as [m'|] eqn:E; [|discriminate]. inversion H; subst; clear H. cbn.
+    rewrite !app_nil_r. pose proof (delete_in_keeps _ _ _ _ E) as K.
+    repeat split; try reflexivity.
+    + intros x. destruct (K x) as [K1 _]. destruct x; cbn in *; rewrite app_nil_r; exact K1.
+    + intros x. rewrite !map_length. destruct (K x) as [K1 _]. apply (f_equal (@length N)) in K1. rewrite !map_length in K1. rewrite K1.
+      destruct x; cbn; lia.
+Qed.
+
+(* lifted over whole histories (no bound on the length): what a completed run has appended *)
+Theorem arun_appends : forall h s rets s' rets',
+  arun s h rets = (s', rets', false) ->
+  a_data s' = a_data s ++ flat_map data_of h
+  /\ map ex_core (a_exports s') = map ex_core (a_exports s) ++ flat_map exports_of h
+  /\ (forall x, fps s' x = fps s x ++ flat_map (fun o => new_fps o x) h).
+Proof.
+  induction h as [|o h IH]; intros s rets s' rets' H; cbn [arun flat_map] in *.
+  - inversion H; subst. rewrite !app_nil_r. repeat split; try reflexivity. intros x. rewrite app_nil_r. reflexivity.
+  - destruct (astep s o) as [[s1 r]|] eqn:E; [|inversion H].
+    destruct (astep_appends _ _ _ _ E) as (D1 & E1 & F1 & _).
+    destruct (IH _ _ _ _ H) as (D2 & E2 & F2).
+    rewrite D2, D1, E2, E1, !app_assoc. repeat split; try reflexivity.
+    intros x. rewrite F2, F1, app_assoc. reflexivity.
+Qed.
+
+(* the run is a left fold of the single step *)
+Lemma arun_panics_stay : forall h s rets s' rets', arun s h rets = (s', rets', false) ->
+  forall o, In o h -> exists s0 s1 r, astep s0 o = Ok (s1, r).
+Proof.
+  induction h as [|o h IH]; intros s rets s' rets' H o' Hin; [destruct Hin|].
+  cbn [arun] in H. destruct (astep s o) as [[s1 r]|] eqn:E; [|inversion H].
+  destruct Hin as [->|Hin]; [exists s, s1, r; exact E | eapply IH; eassumption].
+Qed.
+
+(* add_data returns the position at which the segment is stored, and it stays there *)
+Lemma nthN_app_len {A} (l : list A) x t : nthN (l ++ x :: t) (lenN l) = Some x.
+Proof. unfold nthN, lenN. rewrite Nat2N.id. induction l; cbn; auto. Qed.
+Theorem add_data_id_designates s d s1 r h rets s2 rets2 :
+  astep s (OAddData d) = Ok (s1, r) -> arun s1 h rets = (s2, rets2, false) ->
+  r = Some (lenN (a_data s)) /\ nthN (a_data s2) (lenN (a_data s)) = Some d.
+Proof.
+  intros H1 H2. cbn [astep] in H1. inversion H1; subst; clear H1. split; [reflexivity|].
+  destruct (arun_appends _ _ _ _ _ H2) as (D & _). rewrite D. cbn [a_data]. rewrite <- app_assoc. apply nthN_app_len.
+Qed.
+
+(* add_global / add_local_memory: the new item is pushed at the end with stored id = its position, nothing else moves *)
+Theorem add_global_appends s fp t e s1 r :
+  astep s (OAddGlobal fp t e) = Ok (s1, r) ->
+  exists t', gty_conv t = Ok t'
+  /\ s_items (m_g (a_m s1)) = s_items (m_g (a_m s)) ++ [mkItem (lenN (s_items (m_g (a_m s)))) None false fp]
+  /\ r = Some (lenN (s_items (m_g (a_m s))))
+  /\ plookup (a_gpay s1) fp = Some (mkGP t' (Some e))
+  /\ m_f (a_m s1) = m_f (a_m s) /\ m_m (a_m s1) = m_m (a_m s) /\ m_imports (a_m s1) = m_imports (a_m s)
+  /\ a_mpay s1 = a_mpay s /\ a_data s1 = a_data s /\ a_exports s1 = a_exports s.
+Proof.
+  cbn [astep]. destruct (gty_conv t) as [t'|]; [|discriminate]. cbn [step]. intros H. inversion H; subst; clear H.
+  exists t'. cbn. rewrite N.eqb_refl. repeat split; reflexivity.
+Qed.
+Theorem add_memory_appends s fp t s1 r :
+  astep s (OAddMem fp t) = Ok (s1, r) ->
+  s_items (m_m (a_m s1)) = s_items (m_m (a_m s)) ++ [mkItem (lenN (s_items (m_m (a_m s)))) None false fp]
+  /\ r = Some (lenN (s_items (m_m (a_m s))))
+  /\ plookup (a_mpay s1) fp = Some t
+  /\ m_f (a_m s1) = m_f (a_m s) /\ m_g (a_m s1) = m_g (a_m s) /\ m_imports (a_m s1) = m_imports (a_m s)
+  /\ a_gpay s1 = a_gpay s /\ a_data s1 = a_data s /\ a_exports s1 = a_exports s.
+Proof.
+  cbn [astep step]. intros H. inversion H; subst; clear H. cbn. rewrite N.eqb_refl. repeat split; reflexivity.
+Qed.
+Theorem add_data_appends s d s1 r :
+  astep s (OAddData d) = Ok (s1, r) ->
+  a_data s1 = a_data s ++ [d] /\ r = Some (lenN (a_data s))
+  /\ a_m s1 = a_m s /\ a_gpay s1 = a_gpay s /\ a_mpay s1 = a_mpay s /\ a_exports s1 = a_exports s.
+Proof. cbn [astep]. intros H. inversion H; subst. cbn. repeat split; reflexivity. Qed.
+Theorem add_export_appends s k n id s1 r :
+  astep s (OAddExport k n id) = Ok (s1, r) ->
+  a_exports s1 = a_exports s ++ [mkEx n k id false]
+  /\ a_m s1 = a_m s /\ a_gpay s1 = a_gpay s /\ a_mpay s1 = a_mpay s /\ a_data s1 = a_data s.
+Proof. cbn [astep]. intros H. inversion H; subst. cbn. repeat split; reflexivity. Qed.
+
+(* ------------------------------------------------------------------------------------------ *)
+(* C. mod_global_init_expr changes exactly one initialiser *)
+Lemma plookup_pset_same {A} (t : list (N * A)) k v : plookup (pset t k v) k = Some v.
+Proof. unfold pset. cbn [plookup]. rewrite N.eqb_refl. reflexivity. Qed.
+Lemma plookup_filter_neq {A} (t : list (N * A)) a k :
+  k <> a -> plookup (filter (fun kv => negb (N.eqb (fst kv) a)) t) k = plookup t k.
+Proof.
+  intros Hne. induction t as [|[k' v] t IH]; [reflexivity|].
+  cbn [filter fst]. destruct (N.eqb_spec k' a) as [->|Hk]; cbn [negb].
+  - cbn [plookup]. destruct (N.eqb_spec k a); [contradiction|]. exact IH.
+  - cbn [plookup]. destruct (N.eqb k k'); [reflexivity|exact IH].
+Qed.
+Lemma plookup_pset_other {A} (t : list (N * A)) k k' v : k' <> k -> plookup (pset t k v) k' = plookup t k'.
+Proof.
+  intros Hne. unfold pset. cbn [plookup]. destruct (N.eqb_spec k' k); [contradiction|]. apply plookup_filter_neq. exact Hne.
+Qed.
+
+Theorem mod_init_changes_only_that_global s g e s1 r :
+  astep s (OModInit g e) = Ok (s1, r) ->
+  exists it p,
+    nthN (s_items (m_g (a_m s))) g = Some it /\ is_local it = true
+    /\ plookup (a_gpay s) (it_fp it) = Some p
+    /\ plookup (a_gpay s1) (it_fp it) = Some (mkGP (gp_ty p) (Some e))                 (* same type, the new initialiser *)
+    /\ (forall fp, fp <> it_fp it -> plookup (a_gpay s1) fp = plookup (a_gpay s) fp)  (* every other global as before *)
+    /\ a_m s1 = a_m s /\ a_mpay s1 = a_mpay s /\ a_data s1 = a_data s /\ a_exports s1 = a_exports s /\ r = None.
+Proof.
+  cbn [astep]. destruct (nthN _ g) as [it|] eqn:En; [|discriminate].
+  destruct (is_local it) eqn:El; [|discriminate]. destruct (plookup _ _) as [p|] eqn:Ep; [|discriminate].
+  intros H. inversion H; subst; clear H. exists it, p. cbn.
+  repeat split; try reflexivity; try assumption.
+  - apply plookup_pset_same.
+  - intros fp Hne. apply plookup_pset_other. exact Hne.
+Qed.
+
+(* at the level of the encoded module: every emitted global other than the one whose initialiser was replaced is
+   emitted exactly as before, and so is every import, memory, data segment, export and reference *)
+Theorem mod_init_emission s g e s1 r dc sites :
+  astep s (OModInit g e) = Ok (s1, r) ->
+  exists fp, (exists it, nthN (s_items (m_g (a_m s))) g = Some it /\ it_fp it = fp) /\
+  forall mf mg,
+    (forall it', it_fp it' <> fp -> emit_global (a_gpay s1) mf mg it' = emit_global (a_gpay s) mf mg it')
+    /\ (forall i, i_fp i <> fp \/ i_sp i <> 1 -> emit_imp s1 i = emit_imp s i)
+    /\ (forall o o', aencode s dc sites = Ok o -> aencode s1 dc sites = Ok o' ->
+          ob_funcs o' = ob_funcs o /\ ob_mems o' = ob_mems o /\ ob_data o' = ob_data o
+          /\ ob_exports o' = ob_exports o /\ ob_sites o' = ob_sites o /\ ob_dcount o' = ob_dcount o
+          /\ length (ob_globals o') = length (ob_globals o)).
+Proof.
+  intros H. destruct (mod_init_changes_only_that_global _ _ _ _ _ H) as (it & p & Hn & Hl & Hp & Hp1 & Hoth & Hm & Hmp & Hd & He & _).
+  exists (it_fp it). split; [exists it; split; [exact Hn|reflexivity]|]. intros mf mg. split; [|split].
+  - intros it' Hne. unfold emit_global. rewrite (Hoth _ Hne). reflexivity.
+  - intros i Hi. unfold emit_imp. rewrite Hmp.
+    destruct (N.eqb_spec (i_sp i) 1) as [E1|E1]; [|reflexivity].
+    destruct Hi as [Hi|Hi]; [|contradiction]. rewrite (Hoth _ Hi). reflexivity.
+  - intros o o'. unfold aencode. rewrite Hm, Hmp, Hd, He.
+    destruct (index_space (m_f (a_m s))) as [[lf mf']|]; [|discriminate].
+    destruct (index_space (m_g (a_m s))) as [[lg mg']|]; [|discriminate].
+    destruct (index_space (m_m (a_m s))) as [[lm mm']|]; [|discriminate].
+    repeat match goal with
+           | |- context [match rmap ?f ?l with _ => _ end] => let E := fresh "E" in destruct (rmap f l) eqn:E
+           end; try (intros; discriminate).
+    intros Ho Ho'. inversion Ho; inversion Ho'; subst; cbn.
+    repeat split; try reflexivity.
+    repeat match goal with H : rmap (emit_global _ _ _) _ = Ok _ |- _ => apply rmap_length in H end. congruence.
+Qed.
+
+(* ------------------------------------------------------------------------------------------ *)
+(* D. emission: the sections of the output are the stored requests *)
+Definition dseg_bytes (d : dseg) := match d with DPassive b | DActive _ _ b => b end.
+Definition odseg_bytes (d : odseg) := match d with OPassive b | OActive _ _ b => b end.
+Definition dseg_passive (d : dseg) := match d with DPassive _ => true | _ => false end.
+Definition odseg_passive (d : odseg) := match d with OPassive _ => true | _ => false end.
+
+Lemma emit_data_exact mf mg mm d od : emit_data mf mg mm d = Ok od ->
+  odseg_bytes od = dseg_bytes d /\ odseg_passive od = dseg_passive d
+  /\ match d, od with
+     | DActive mem off _, OActive q off' _ => lookup mm mem = Some q /\ exists offx, fix_init mf mg off = Ok offx /\ off' = enc_init offx
+     | DPassive _, OPassive _ => True
+     | _, _ => False
+     end.
+Proof.
+  destruct d as [b|mem off b]; cbn [emit_data]; intros H.
+  - inversion H; subst. repeat split.
+  - destruct (fix_init mf mg off) as [offx|] eqn:E; [|discriminate]. destruct (lookup mm mem) as [q|] eqn:L; [|discriminate].
+    inversion H; subst. cbn. repeat split. exists offx. split; reflexivity.
+Qed.
+
+(* every data segment of the state is in the output at its own position, payload bytes and kind intact; the
+   output has no other segment *)
+Theorem data_section_exact s dc sites o :
+  aencode s dc sites = Ok o ->
+  length (ob_data o) = length (a_data s)
+  /\ forall k d, nthN (a_data s) k = Some d ->
+       exists od, nthN (ob_data o) k = Some od /\ odseg_bytes od = dseg_bytes d /\ odseg_passive od = dseg_passive d.
+Proof.
+  unfold aencode.
+  destruct (index_space (m_f (a_m s))) as [[lf mf]|]; [|discriminate].
+  destruct (index_space (m_g (a_m s))) as [[lg mg]|]; [|discriminate].
+  destruct (index_space (m_m (a_m s))) as [[lm mm]|]; [|discriminate].
+  destruct (rmap (emit_imp s) _) as [oi|]; [|discriminate].
+  destruct (rmap (emit_global _ _ _) _) as [og|]; [|discriminate].
+  destruct (rmap (emit_mem _) _) as [om|]; [|discriminate].
+  destruct (rmap (emit_data mf mg mm) _) as [od|] eqn:D; [|discriminate].
+  destruct (rmap (emit_export _ _) _) as [oe|]; [|discriminate].
+  destruct (rmap (emit_site _ _ _) _) as [os|]; [|discriminate].
+  intros H. inversion H; subst; cbn. split; [apply (rmap_length _ _ _ D)|].
+  intros k d Hn. unfold nthN in *. destruct (rmap_nth _ _ _ _ _ D Hn) as (y & Hy & Ey).
+  exists y. split; [exact Hy|]. destruct (emit_data_exact _ _ _ _ _ Ey) as (B & P & _). split; assumption.
+Qed.
+
+(* the export section: the live exports in order, names and kinds intact (indices go through the id maps) *)
+Theorem export_section_exact s dc sites o :
+  aencode s dc sites = Ok o ->
+  map (fun t => (fst (fst t), snd (fst t))) (ob_exports o)
+  = map (fun e => (ex_name e, ex_kind e)) (filter (fun e => negb (ex_del e)) (a_exports s)).
+Proof.
+  unfold aencode.
+  destruct (index_space (m_f (a_m s))) as [[lf mf]|]; [|discriminate].
+  destruct (index_space (m_g (a_m s))) as [[lg mg]|]; [|discriminate].
+  destruct (index_space (m_m (a_m s))) as [[lm mm]|]; [|discriminate].
+  destruct (rmap (emit_imp s) _) as [oi|]; [|discriminate].
+  destruct (rmap (emit_global _ _ _) _) as [og|]; [|discriminate].
+  destruct (rmap (emit_mem _) _) as [om|]; [|discriminate].
+  destruct (rmap (emit_data mf mg mm) _) as [od|]; [|discriminate].
+  destruct (rmap (emit_export _ _) _) as [oe|] eqn:E; [|discriminate].
+  destruct (rmap (emit_site _ _ _) _) as [os|]; [|discriminate].
+  intros H. inversion H; subst; cbn.
+  eapply rmap_map; [|exact E]. intros x y. unfold emit_export.
+  destruct (N.eqb_spec (ex_kind x) 0) as [E0|E0].
+  - destruct (lookup mf (ex_idx x)); [|discriminate]. intros Hy. inversion Hy; subst. cbn. rewrite E0. reflexivity.
+  - destruct (N.eqb_spec (ex_kind x) 2) as [E2|E2].
+    + destruct (lookup mm (ex_idx x)); [|discriminate]. intros Hy. inversion Hy; subst. cbn. rewrite E2. reflexivity.
+    + intros Hy. inversion Hy; subst. reflexivity.
+Qed.
+
+(* every global of the output is a live local item of the index space, with its stored type and the encoding
+   of its stored initialiser after the id maps; every memory likewise with its stored limits *)
+Theorem global_section_exact s dc sites o :
+  aencode s dc sites = Ok o ->
+  exists lg mf mg, (exists l, index_space (m_f (a_m s)) = Ok (l, mf)) /\ index_space (m_g (a_m s)) = Ok (lg, mg) /\
+  let live := filter (fun i => is_local i && negb (it_del i)) lg in
+  length (ob_globals o) = length live /\
+  forall k it, nth_error live k = Some it ->
+    exists t e e', plookup (a_gpay s) (it_fp it) = Some (mkGP t (Some e)) /\ fix_init mf mg e = Ok e'
+                   /\ nth_error (ob_globals o) k = Some (mkOG t (enc_init e')).
+Proof.
+  unfold aencode.
+  destruct (index_space (m_f (a_m s))) as [[lf mf]|]; [|discriminate].
+  destruct (index_space (m_g (a_m s))) as [[lg mg]|]; [|discriminate].
+  destruct (index_space (m_m (a_m s))) as [[lm mm]|]; [|discriminate].
+  destruct (rmap (emit_imp s) _) as [oi|]; [|discriminate].
+  destruct (rmap (emit_global _ _ _) _) as [og|] eqn:G; [|discriminate].
+  destruct (rmap (emit_mem _) _) as [om|]; [|discriminate].
+  destruct (rmap (emit_data mf mg mm) _) as [od|]; [|discriminate].
+  destruct (rmap (emit_export _ _) _) as [oe|]; [|discriminate].
+  destruct (rmap (emit_site _ _ _) _) as [os|]; [|discriminate].
+  intros H. inversion H; subst; cbn. exists lg, mf, mg. split; [exists lf; reflexivity|]. split; [reflexivity|].
+  split; [apply (rmap_length _ _ _ G)|].
+  intros k it Hn. destruct (rmap_nth _ _ _ _ _ G Hn) as (y & Hy & Ey).
+  unfold emit_global in Ey. destruct (plookup (a_gpay s) (it_fp it)) as [[t [e|]]|]; try discriminate.
+  destruct (fix_init mf mg e) as [e'|] eqn:F; [|discriminate]. inversion Ey; subst.
+  exists t, e, e'. repeat split; assumption.
+Qed.
+Theorem memory_section_exact s dc sites o :
+  aencode s dc sites = Ok o ->
+  exists lm mm, index_space (m_m (a_m s)) = Ok (lm, mm) /\
+  length (ob_mems o) = length (filter is_local lm) /\
+  forall k it, nth_error (filter is_local lm) k = Some it ->
+    exists t, plookup (a_mpay s) (it_fp it) = Some t /\ nth_error (ob_mems o) k = Some t.
+Proof.
+  unfold aencode.
+  destruct (index_space (m_f (a_m s))) as [[lf mf]|]; [|discriminate].
+  destruct (index_space (m_g (a_m s))) as [[lg mg]|]; [|discriminate].
+  destruct (index_space (m_m (a_m s))) as [[lm mm]|]; [|discriminate].
+  destruct (rmap (emit_imp s) _) as [oi|]; [|discriminate].
+  destruct (rmap (emit_global _ _ _) _) as [og|]; [|discriminate].
+  destruct (rmap (emit_mem _) _) as [om|] eqn:M; [|discriminate].
+  destruct (rmap (emit_data mf mg mm) _) as [od|]; [|discriminate].
+  destruct (rmap (emit_export _ _) _) as [oe|]; [|discriminate].
+  destruct (rmap (emit_site _ _ _) _) as [os|]; [|discriminate].
+  intros H. inversion H; subst; cbn. exists lm, mm. split; [reflexivity|]. split; [apply (rmap_length _ _ _ M)|].
+  intros k it Hn. destruct (rmap_nth _ _ _ _ _ M Hn) as (y & Hy & Ey).
+  unfold emit_mem in Ey. destruct (plookup (a_mpay s) (it_fp it)) as [t|]; [|discriminate]. inversion Ey; subst.
+  exists y. split; [reflexivity|exact Hy].
+Qed.
+
+(* ------------------------------------------------------------------------------------------ *)
+(* E. reflection: [agree c = true] means the observation *is* the model's output *)
+Lemma leqb_eq {A} (e : A -> A -> bool) : (forall a b, e a b = true -> a = b) -> forall l l', leqb e l l' = true -> l = l'.
+Proof.
+  intros He. induction l as [|a l IH]; intros [|b l'] H; cbn in H; try discriminate; [reflexivity|].
+  apply andb_true_iff in H as [H1 H2]. f_equal; [apply He; exact H1 | apply IH; exact H2].
+Qed.
+Lemma opt_eqb_eq {A} (e : A -> A -> bool) : (forall a b, e a b = true -> a = b) -> forall x y, opt_eqb e x y = true -> x = y.
+Proof. intros He [a|] [b|] H; cbn in H; try discriminate; [f_equal; apply He; exact H | reflexivity]. Qed.
+Lemma Neqb_eq a b : N.eqb a b = true -> a = b. Proof. apply N.eqb_eq. Qed.
+Lemma Zeqb_eq a b : Z.eqb a b = true -> a = b. Proof. apply Z.eqb_eq. Qed.
+Lemma beqb_eq a b : Bool.eqb a b = true -> a = b. Proof. apply eqb_prop. Qed.
+Lemma optN_eqb_eq a b : optN_eqb a b = true -> a = b.
+Proof. destruct a, b; cbn; intros H; try discriminate; [apply N.eqb_eq in H; subst|]; reflexivity. Qed.
+Lemma gty_eqb_eq a b : gty_eqb a b = true -> a = b.
+Proof.
+  destruct a, b. unfold gty_eqb. cbn. intros H. apply andb_true_iff in H as [H H3]. apply andb_true_iff in H as [H1 H2].
+  apply N.eqb_eq in H1. apply eqb_prop in H2. apply eqb_prop in H3. subst. reflexivity.
+Qed.
+Lemma mty_eqb_eq a b : mty_eqb a b = true -> a = b.
+Proof.
+  destruct a, b. unfold mty_eqb. cbn. intros H.
+  apply andb_true_iff in H as [H H5]. apply andb_true_iff in H as [H H4]. apply andb_true_iff in H as [H H3]. apply andb_true_iff in H as [H1 H2].
+  apply eqb_prop in H1. apply eqb_prop in H2. apply N.eqb_eq in H3.
+  apply (opt_eqb_eq _ Neqb_eq) in H4. apply (opt_eqb_eq _ Neqb_eq) in H5. subst. reflexivity.
+Qed.
+Lemma cop_eqb_eq a b : cop_eqb a b = true -> a = b.
+Proof.
+  destruct a, b; cbn; intros H; try discriminate; first [apply Z.eqb_eq in H | apply N.eqb_eq in H]; subst; reflexivity.
+Qed.
+Lemma oglobal_eqb_eq a b : oglobal_eqb a b = true -> a = b.
+Proof.
+  destruct a, b. unfold oglobal_eqb. cbn. intros H. apply andb_true_iff in H as [H1 H2].
+  apply gty_eqb_eq in H1. apply (leqb_eq _ cop_eqb_eq) in H2. subst. reflexivity.
+Qed.
+Lemma odseg_eqb_eq a b : odseg_eqb a b = true -> a = b.
+Proof.
+  destruct a, b; cbn; intros H; try discriminate.
+  - apply (leqb_eq _ Neqb_eq) in H. subst. reflexivity.
+  - apply andb_true_iff in H as [H H3]. apply andb_true_iff in H as [H1 H2].
+    apply N.eqb_eq in H1. apply (leqb_eq _ cop_eqb_eq) in H2. apply (leqb_eq _ Neqb_eq) in H3. subst. reflexivity.
+Qed.
+Lemma idesc_eqb_eq a b : idesc_eqb a b = true -> a = b.
+Proof.
+  destruct a, b; cbn; intros H; try discriminate; [reflexivity | apply gty_eqb_eq in H | apply mty_eqb_eq in H]; subst; reflexivity.
+Qed.
+Lemma oimp_eqb_eq a b : oimp_eqb a b = true -> a = b.
+Proof.
+  destruct a, b. unfold oimp_eqb. cbn. intros H. apply andb_true_iff in H as [H H3]. apply andb_true_iff in H as [H1 H2].
+  apply N.eqb_eq in H1. apply N.eqb_eq in H2. apply idesc_eqb_eq in H3. subst. reflexivity.
+Qed.
+Lemma triple_eqb_eq a b : triple_eqb a b = true -> a = b.
+Proof.
+  destruct a as [[a1 a2] a3], b as [[b1 b2] b3]. unfold triple_eqb. cbn. intros H.
+  apply andb_true_iff in H as [H H3]. apply andb_true_iff in H as [H1 H2].
+  apply N.eqb_eq in H1. apply N.eqb_eq in H2. apply N.eqb_eq in H3. subst. reflexivity.
+Qed.
+Lemma pair_eqb_eq a b : pair_eqb a b = true -> a = b.
+Proof.
+  destruct a, b. unfold pair_eqb. cbn. intros H. apply andb_true_iff in H as [H1 H2].
+  apply N.eqb_eq in H1. apply N.eqb_eq in H2. subst. reflexivity.
+Qed.
+Lemma aobs_eqb_eq a b : aobs_eqb a b = true -> a = b.
+Proof.
+  destruct a, b. unfold aobs_eqb. cbn. intros H.
+  repeat match type of H with (_ && _) = true => let H' := fresh "H" in apply andb_true_iff in H as [H H'] end.
+  apply (leqb_eq _ oimp_eqb_eq) in H. apply (leqb_eq _ Neqb_eq) in H6. apply (leqb_eq _ oglobal_eqb_eq) in H5.
+  apply (leqb_eq _ mty_eqb_eq) in H4. apply (leqb_eq _ odseg_eqb_eq) in H3. apply (leqb_eq _ triple_eqb_eq) in H2.
+  apply (leqb_eq _ pair_eqb_eq) in H1. apply (opt_eqb_eq _ Neqb_eq) in H0. subst. reflexivity.
+Qed.
+
+Theorem agree_reflect (c : acase) : agree c = true -> model_out c = (ao_rets c, ao_api_panic c, ao_enc c).
+Proof.
+  unfold agree. destruct (model_out c) as [[rets p] e]. intros H.
+  apply andb_true_iff in H as [H H3]. apply andb_true_iff in H as [H1 H2].
+  apply (leqb_eq _ optN_eqb_eq) in H1. apply eqb_prop in H2. apply (opt_eqb_eq _ aobs_eqb_eq) in H3. subst. reflexivity.
+Qed.
+
+(* Consequently everything section D says about the model's output is true of the *observed* output of a case
+   on which the implementation agrees with the model. *)
+Theorem agree_observed_is_encoded (c : acase) o :
+  agree c = true -> ao_enc c = Some o ->
+  exists s rets, arun (abase c) (ah_ops c) [] = (s, rets, false) /\ aencode s (ab_dcount c) (ah_sites c) = Ok o
+                 /\ rets = ao_rets c /\ ao_api_panic c = false.
+Proof.
+  intros Ha Ho. apply agree_reflect in Ha. unfold model_out in Ha.
+  destruct (arun (abase c) (ah_ops c) []) as [[s rets] p] eqn:E.
+  destruct p; inversion Ha as [[H1 H2 H3]]; [rewrite Ho in H3; discriminate|].
+  exists s, rets. rewrite Ho in H3.
+  destruct (aencode s (ab_dcount c) (ah_sites c)) as [e|]; inversion H3; subst. repeat split; reflexivity.
+Qed.
+
+(* ------------------------------------------------------------------------------------------ *)
+(* F. end to end for data segments, all histories: whatever else the history does (additions, deletions, import
+   additions, initialiser replacements, in any number), a segment added by add_data is found in the observed
+   output at the returned id with exactly the requested payload bytes and kind. *)
+Lemma arun_app : forall h1 h2 s rets,
+  arun s (h1 ++ h2) rets = match arun s h1 rets with (s1, r1, false) => arun s1 h2 r1 | x => x end.
+Proof.
+  induction h1 as [|o h1 IH]; intros h2 s rets; cbn [app arun]; [reflexivity|].
+  destruct (astep s o) as [[s1 r]|]; [apply IH | reflexivity].
+Qed.
+Lemma arun_rets : forall h s rets s' rets' p, arun s h rets = (s', rets', p) ->
+  exists l, rets' = rets ++ l /\ (p = false -> length l = length h).
+Proof.
+  induction h as [|o h IH]; intros s rets s' rets' p H; cbn [arun] in H.
+  - inversion H; subst. exists []. rewrite app_nil_r. split; reflexivity.
+  - destruct (astep s o) as [[s1 r]|].
+    + destruct (IH _ _ _ _ _ H) as (l & Hl & Hlen). exists (r :: l). rewrite Hl, <- app_assoc. split; [reflexivity|].
+      intros Hp. cbn. rewrite (Hlen Hp). reflexivity.
+    + inversion H; subst. exists []. rewrite app_nil_r. split; [reflexivity|discriminate].
+Qed.
+
+Theorem observed_data_exact (c : acase) o h1 d h2 :
+  agree c = true -> ao_enc c = Some o -> ah_ops c = h1 ++ OAddData d :: h2 ->
+  exists r od, nth_error (ao_rets c) (length h1) = Some (Some r)
+               /\ nthN (ob_data o) r = Some od
+               /\ odseg_bytes od = dseg_bytes d /\ odseg_passive od = dseg_passive d.
+Proof.
+  intros Ha Ho Hh. destruct (agree_observed_is_encoded c o Ha Ho) as (s & rets & Hrun & Henc & Hr & _).
+  rewrite Hh, arun_app in Hrun.
+  destruct (arun (abase c) h1 []) as [[s1 r1] p1] eqn:E1. destruct p1; [inversion Hrun|].
+  destruct (arun_rets _ _ _ _ _ _ E1) as (l1 & Hl1 & Hlen1). cbn [app] in Hl1. subst r1. specialize (Hlen1 eq_refl).
+  cbn [arun] in Hrun. destruct (astep s1 (OAddData d)) as [[s2 r]|] eqn:E2; [|inversion Hrun].
+  destruct (add_data_id_designates _ _ _ _ _ _ _ _ E2 Hrun) as (Hret & Hnth).
+  destruct (arun_rets _ _ _ _ _ _ Hrun) as (l2 & Hl2 & _).
+  destruct (data_section_exact _ _ _ _ Henc) as (_ & Hd). destruct (Hd _ _ Hnth) as (od & Hod & Hb & Hp).
+  exists (lenN (a_data s1)), od. repeat split; try assumption.
+  rewrite <- Hr, Hl2, Hret, <- app_assoc. cbn [app]. rewrite <- Hlen1.
+  clear. induction l1; cbn; auto.
+Qed.
